@@ -65,6 +65,7 @@ struct Sim {
     bool shortw{false};
   };
   std::vector<WriteFault> write_faults;
+  bool vanish_after_kill{false}; // a cgroup is removed (its manager's rmdir) as soon as cgroup.kill was written / its last pid signalled
   int xattr_get_errno{0}; // errno for fgetxattr/getxattr under the scratch root (0 = emulate normally)
   // event log
   std::mutex mu;
@@ -75,6 +76,9 @@ struct Sim {
   std::string last_throw; // Oomd:: frames of the most recent __cxa_throw
 };
 extern Sim g;
+// called at every tick boundary by the interposed sigtimedwait, after the world ops and the tick event (the place where
+// Oomd::run() calls updateDropIns()); set by the sim driver
+extern void (*g_tick_hook)(int tick, const Json::Value& tk);
 extern std::atomic<unsigned> g_yield_ppm; // probability (ppm) of a seeded yield at mutex lock/unlock, TSan flavor
 
 void ev(Json::Value& e); // adds seq/tick/t and appends to the trace
